@@ -62,6 +62,16 @@ impl Opts {
             o = o.unix_permissions(p);
         }
         if let Some(pw) = &self.password {
+            // the setters are a builder: setting a value again replaces the earlier one. One options value in three
+            // had another password (and other settings) before it got the ones the entry is written with.
+            if crate::rng::fnv(&pw.0) % 3 == 0 {
+                o = o.with_deprecated_encryption(b"an earlier password").unix_permissions(0o600).large_file(!self.large).large_file(self.large);
+                if let Some(p) = self.perm {
+                    o = o.unix_permissions(p);
+                } else {
+                    o = FileOptions::default().compression_method(m).compression_level(self.level).last_modified_time(dt).large_file(self.large).with_deprecated_encryption(b"an earlier password");
+                }
+            }
             o = o.with_deprecated_encryption(&pw.0);
         }
         o
